@@ -196,11 +196,12 @@ class Specialiser:
     def configs(self, only=None):
         thorough = self.ctx.thorough
         recs = []
-        if thorough:
+        if self.ctx.silent:  # positive-control runs (either tier): a reduced space is enough to show that the rule fires
+            thorough = False
+            recs = [frozenset(), frozenset(RECORD), frozenset(["time"])]
+        elif thorough:
             for r in range(len(RECORD) + 1):
                 recs += [frozenset(c) for c in itertools.combinations(RECORD, r)]
-        elif self.ctx.silent:  # positive-control runs: a reduced space is enough to show that the rule fires
-            recs = [frozenset(), frozenset(RECORD), frozenset(["time"])]
         else:
             recs = [frozenset()] + [frozenset([r]) for r in RECORD] + [frozenset(RECORD), frozenset(["reward", "action", "probability"])]
         for learn in LEARN:
